@@ -12,11 +12,11 @@
 //! suspended at that point (a seeded simulated duration, or one scheduler yield), which lets the
 //! simulated worker run inside the window exactly as the real thread could.
 
-use std::cell::{Cell, RefCell};
+use std::cell::Cell;
 use std::collections::BTreeMap;
 use std::future::Future;
 use std::pin::Pin;
-use std::rc::Rc;
+use std::sync::{Arc, Mutex};
 use std::task::{Context, Poll};
 use std::time::Duration;
 
@@ -75,13 +75,13 @@ struct Shared {
 }
 
 struct WindowGuard {
-    shared: Rc<RefCell<Shared>>,
+    shared: Arc<Mutex<Shared>>,
     s: usize,
 }
 
 impl Drop for WindowGuard {
     fn drop(&mut self) {
-        self.shared.borrow_mut().window[self.s] = None;
+        self.shared.lock().unwrap().window[self.s] = None;
     }
 }
 
@@ -94,8 +94,8 @@ impl Property for C14Prop {
     }
     fn budget(&self, tier: Tier) -> Budget {
         match tier {
-            Tier::Quick => Budget { runs: 60_000, wall_cap_s: 40 },
-            Tier::Thorough => Budget { runs: 1_000_000, wall_cap_s: 360 },
+            Tier::Quick => Budget { runs: 60_000, wall_cap_s: 35 },
+            Tier::Thorough => Budget { runs: 1_000_000, wall_cap_s: 330 },
         }
     }
     fn modes(&self) -> u32 {
@@ -108,7 +108,7 @@ impl Property for C14Prop {
         }
     }
     fn rule(&self) -> &'static str {
-        "one run = 2-6 submitter tasks x 1-5 Pipeline::process calls each (seeded submit gaps; a submission reuses an operation another submission also uses with probability 1/3, so the tracker deduplicates concurrent submissions), one simulated worker (recv, seeded delay, TaskTracker::mark_as_done), channel capacity 128/1/2/8, seeded task deferral; the faulty mode suspends a submitter at the yield point between the result check and notified() in Task::ready with a per-run rate of 1/8..8/8 for one scheduler yield or 1 us..20 ms simulated; every call must return within 300 simulated seconds with the event of its own operation; non-trivial = every run (at least 2 submitters); distinct = distinct trace fingerprint (plan, schedule, preemptions, completion order)"
+        "one run = 2-6 submitter tasks x 1-5 Pipeline::process calls each (seeded submit gaps; a submission reuses an operation another submission also uses with probability 1/3, so the tracker deduplicates concurrent submissions), one simulated worker (recv, seeded delay, TaskTracker::mark_as_done), channel capacity 128/1/2/8, seeded task deferral; the faulty mode suspends a submitter at the yield point between the result check and notified() in Task::ready with a per-run rate of 1/8..8/8 for one scheduler yield or 1..20 ms simulated; every call must return within 300 simulated seconds with the event of its own operation; non-trivial = every run (at least 2 submitters); distinct = distinct trace fingerprint (plan, schedule, preemptions, completion order)"
     }
     fn components_real(&self) -> Vec<&'static str> {
         vec!["p2panda::processor Pipeline::process (via Pipeline::from_parts, hook H2)", "TaskTracker::track / TaskTracker::mark_as_done", "Task::ready / Task::mark_as_done (tokio Mutex + Notify::notify_waiters)", "tokio mpsc channel between submitters and worker", "Event::new / Event::hash (Node extensions)"]
@@ -167,12 +167,12 @@ impl Property for C14Prop {
             ev!("plan s{s}: {}", v.iter().map(|i| format!("op{i}")).collect::<Vec<_>>().join(" "));
         }
 
-        let shared = Rc::new(RefCell::new(Shared {
+        let shared = Arc::new(Mutex::new(Shared {
             in_flight: vec![None; n_sub],
             window: vec![None; n_sub],
             preempted: vec![false; n_sub],
             hit: vec![false; n_sub],
-            labels: ops.iter().enumerate().map(|(i, o)| (o.hash, format!("op{i}/{}", short(&o.hash)))).collect(),
+            labels: ops.iter().enumerate().map(|(i, o)| (o.hash, format!("op{i}"))).collect(),
             site_visits: vec![0; n_sub],
         }));
 
@@ -187,15 +187,15 @@ impl Property for C14Prop {
                 if s == usize::MAX {
                     return None;
                 }
-                shared.borrow_mut().site_visits[s] += 1;
+                shared.lock().unwrap().site_visits[s] += 1;
                 if rate_num == 0 || !ctx::chance("preempt", rate_num, 8) {
                     return None;
                 }
-                let us = *ctx::pick("preempt.window_us", &[0u64, 1, 20, 200, 2_000, 20_000]);
+                let us = *ctx::pick("preempt.window_us", &[0u64, 1_000, 2_000, 5_000, 20_000]);
                 ctx::fault("preempt(task.ready)");
-                let waiting_for = shared.borrow().in_flight[s].map(|(_, h)| h);
+                let waiting_for = shared.lock().unwrap().in_flight[s].map(|(_, h)| h);
                 {
-                    let mut sh = shared.borrow_mut();
+                    let mut sh = shared.lock().unwrap();
                     sh.preempted[s] = true;
                     sh.window[s] = waiting_for;
                     let label = waiting_for.and_then(|h| sh.labels.get(&h).cloned()).unwrap_or_default();
@@ -237,9 +237,9 @@ impl Property for C14Prop {
                 des::spawn(async move {
                     while let Some(event) = rx.recv().await {
                         let h = event.hash();
-                        des::delay("worker.delay_us", &[0, 0, 10, 100, 1_000, 10_000]).await;
+                        des::delay("worker.delay_us", &[0, 0, 1_000, 2_000, 10_000]).await;
                         tasks.mark_as_done(h, event).await;
-                        let mut sh = shared.borrow_mut();
+                        let mut sh = shared.lock().unwrap();
                         let mut inside = vec![];
                         for s in 0..sh.window.len() {
                             if sh.window[s] == Some(h) {
@@ -265,12 +265,12 @@ impl Property for C14Prop {
                 let ops = ops_run.clone();
                 let body = async move {
                     for (k, op_idx) in my_plan.into_iter().enumerate() {
-                        des::delay("submit.gap_us", &[0, 0, 5, 50, 500, 5_000, 50_000]).await;
+                        des::delay("submit.gap_us", &[0, 0, 1_000, 3_000, 20_000, 50_000]).await;
                         let op = ops[op_idx].clone();
                         let h = op.hash;
                         let input = event_for(op, topic);
                         {
-                            let mut sh = shared.borrow_mut();
+                            let mut sh = shared.lock().unwrap();
                             if sh.in_flight.iter().any(|f| matches!(f, Some((_, x)) if *x == h)) {
                                 ctx::probe("same_operation_in_flight_twice");
                             }
@@ -278,13 +278,13 @@ impl Property for C14Prop {
                             sh.preempted[s] = false;
                             sh.hit[s] = false;
                         }
-                        let visits_before = shared.borrow().site_visits[s];
-                        let label = shared.borrow().labels.get(&h).cloned().unwrap_or_default();
+                        let visits_before = shared.lock().unwrap().site_visits[s];
+                        let label = shared.lock().unwrap().labels.get(&h).cloned().unwrap_or_default();
                         let t0 = des::now_us();
                         ev!("t={t0} s{s}#{k}: process({label})");
                         let out = tokio::time::timeout(Duration::from_secs(CALL_TIMEOUT_S), pipeline.process(input)).await;
                         let (preempted, hit) = {
-                            let mut sh = shared.borrow_mut();
+                            let mut sh = shared.lock().unwrap();
                             sh.in_flight[s] = None;
                             sh.window[s] = None;
                             (sh.preempted[s], sh.hit[s])
@@ -292,11 +292,14 @@ impl Property for C14Prop {
                         match out {
                             Ok(event) => {
                                 let got = event.hash();
-                                ev!("t={} s{s}#{k}: process({label}) returned {}", des::now_us(), short(&got));
+                                // Operation ids derive from the run seed; the trace names operations
+                                // by their index so that equal schedules have equal fingerprints.
+                                let got_label = shared.lock().unwrap().labels.get(&got).cloned().unwrap_or_else(|| format!("unknown operation {}", short(&got)));
+                                ev!("t={} s{s}#{k}: process({label}) returned the event of {got_label}", des::now_us());
                                 if got != h {
-                                    violation("returned-result-of-another-operation", "Pipeline::process", format!("submitter {s} submitted {label} and got the event of {}", short(&got)));
+                                    violation("returned-result-of-another-operation", "Pipeline::process", format!("submitter {s} submitted {label} and got the event of {got_label}"));
                                 }
-                                if shared.borrow().site_visits[s] == visits_before {
+                                if shared.lock().unwrap().site_visits[s] == visits_before {
                                     // ready() found the result in the first check.
                                     ctx::probe("result_already_there_at_check");
                                 }
@@ -321,6 +324,9 @@ impl Property for C14Prop {
                                     site,
                                     format!("submitter {s}, submission #{k}: process({label}) submitted at t={t0} us had not returned {CALL_TIMEOUT_S} simulated seconds later (preempted at H1: {preempted}; mark_as_done for it ran inside the window: {hit})"),
                                 );
+                                // The property is violated for this submitter; its later submissions add
+                                // nothing but trace length.
+                                break;
                             }
                         }
                     }
